@@ -50,7 +50,7 @@ MIN_REACH = {'regions:Region.union': 1, 'regions:Region.without': 1, 'regions:Re
              'regions:Region.symmetric_difference': 1, 'regions:Region.sky_within': 1, 'regions:Region.get_demoted': 1,
              'regions:Region.get_area': 1, 'regions:Region._renorm': 1, 'regions:Region._demote_all': 1,
              'regions:Region.add_pixels': 1, 'regions:Region.add_poly': 1, 'regions:Region.save': 1,
-             'MIMAS:combine_regions': 1}
+             'MIMAS:combine_regions': 1, 'MIMAS:intersect_regions': 1, 'MIMAS:reg2mim': 1}
 MIN_COUNTERS = {'invariant_evaluated': 2000, 'steps_judged': 2000, 'probe_clones': 2000, 'op_union_finer': 20,
                 'op_union_coarser': 20, 'op_add_pixels_bare': 50, 'op_add_pixels_renorm': 50,
                 'bare_add_pixels_coarse_after_query': 10, 'op_pickle': 20, 'op_self_operand': 5,
@@ -59,6 +59,9 @@ MIN_COUNTERS = {'invariant_evaluated': 2000, 'steps_judged': 2000, 'probe_clones
                 'op_union_renorm_false': 100, 'op_add_pixels_renorm_false': 50,
                 'union_renorm_false_with_coarse_pixels_after_query': 5,
                 'renorm_false_add_pixels_coarse_after_query': 5,
+                'wrapper_cases': 30, 'intersect_orders_judged': 300, 'intersect_three_or_more_operands': 200,
+                'intersect_first_operand_whole_coarse_pixels': 100, 'intersect_operand_with_empty_deepest_level': 30,
+                'reg2mim_later_calls_judged': 60, 'combine_fresh_container_judged': 90,
                 'seam_probes_judged': 500000, 'pole_probes_judged': 100000, 'pole_probes_expected_inside': 5000,
                 'seam_probes_expected_inside': 50000, 'pole_scalar_calls': 50}
 BATCH_TIMEOUT = 1500
@@ -1330,6 +1333,160 @@ def run_combine(case, o, workdir):
     o.sample = {'container': desc, 'result': h.slot_summary(h.pool[k])}
 
 
+def run_wrappers(case, o, workdir):
+    """The MIMAS wrappers as a route for the set algebra, several calls in ONE process, every result judged against
+    its own expected set: intersect_regions / --intersect with 3+ operand files in every order (one operand made of
+    whole coarse pixels only, so its deepest level is empty after _renorm), reg2mim / --reg2mim of several region files
+    one after the other, and combine_regions with freshly made containers filled by append."""
+    import healpy as hp
+    from astropy.coordinates import Angle
+    import astropy.units as u
+    from AegeanTools import MIMAS
+    from AegeanTools.regions import Region
+    from AegeanTools.CLI import MIMAS as cli
+    rng = rng_for(*case['seed'])
+    M = case['depth']
+    res = _resol(M)
+
+    def cli_main(args):
+        buf = io.StringIO()
+        with muted(), contextlib.redirect_stdout(buf):
+            rc = cli.main(args)
+        if rc not in (0, None):
+            raise RuntimeError('MIMAS %s returned %r' % (args[0], rc))
+
+    def judge(region, want, clause, detail):
+        o.n_eval += 1
+        o.count('wrapper_results_judged')
+        lv, fr, pr = check_invariant(region)
+        got = None if fr else hs.expand(lv, region.maxdepth)
+        if fr or pr or got != want:
+            w = dict(detail, n_result=None if got is None else len(got), n_expected=len(want),
+                     extra=sorted(got - want)[:5] if got is not None else None,
+                     missing=sorted(want - got)[:5] if got is not None else None, fractional=fr[:4], problems=pr[:2],
+                     stored_per_level=dict((d, len(x)) for d, x in lv.items() if x))
+            o.violate(clause, w, None)
+
+    def subject(detail, fn, *a):
+        try:
+            return True, fn(*a)
+        except Exception as e:
+            o.violate('raises', dict(detail, exc_type=type(e).__name__, exc=repr(e)[:300],
+                                     tb=traceback.format_exc()[-900:]), None)
+            return False, None
+
+    # ---------------- intersect: operands P (whole coarse pixels only), Q, R (circles), S (coarse pixels again)
+    lo = max(1, M - int(rng.integers(1, 3)))
+    p0 = int(rng.integers(0, hs.npix(lo)))
+    nb = [int(x) for x in hp.get_all_neighbours(2 ** lo, p0, nest=True) if x >= 0]
+    coarse = sorted(set([p0] + nb[:int(rng.integers(1, 4))]))
+    th, ph = hp.pix2ang(2 ** lo, p0, nest=True)
+    anchor = (float(ph), float(np.pi / 2 - th))
+    regs, sets = {}, {}
+    with muted():
+        P = Region(maxdepth=M)
+        P.add_pixels(coarse, lo)
+        Q = Region(maxdepth=M)
+        Q.add_circles(anchor[0], anchor[1], float(rng.uniform(0.6, 1.6) * _resol(lo)))
+        R = Region(maxdepth=M)
+        R.add_circles(float(anchor[0] + rng.normal(0, 0.3 * _resol(lo))), float(np.clip(anchor[1] + rng.normal(0, 0.3 * _resol(lo)), -1.5, 1.5)),
+                      float(rng.uniform(0.6, 1.6) * _resol(lo)))
+        S = Region(maxdepth=M)
+        S.add_pixels(sorted(set(coarse[:2] + nb[-2:])), lo)
+        for name, r in (('P', P), ('Q', Q), ('R', R), ('S', S)):
+            path = os.path.join(workdir, name + '.mim')
+            r.save(path)
+            regs[name] = path
+            sets[name] = hs.expand(hs.to_levels(dict((d, set(x)) for d, x in r.pixeldict.items()))[0], M)
+    if len(P.pixeldict[M]) == 0 and sets['P']:
+        o.count('intersect_operand_with_empty_deepest_level')
+    orders = list(itertools.permutations(['P', 'Q', 'R'])) + [('P', 'S', 'Q'), ('S', 'P', 'R'), ('P', 'S'), ('S', 'P', 'Q', 'R'),
+                                                              ('P', 'P', 'Q')]
+    for k, order in enumerate(orders):
+        want = set(sets[order[0]])
+        for n in order[1:]:
+            want &= sets[n]
+        files = [regs[n] for n in order]
+        detail = {'wrapper': 'intersect_regions', 'order': list(order), 'depth': M, 'coarse_level': lo,
+                  'sizes': dict((n, len(sets[n])) for n in order)}
+        if (k + case['seed'][-1]) % 3 == 0:
+            out = os.path.join(workdir, 'i%d.mim' % k)
+            args = []
+            for f in files:
+                args += ['--intersect', f]
+            detail['wrapper'] = 'MIMAS --intersect'
+            ok, _ = subject(detail, cli_main, args + ['-o', out])
+            got = Region.load(out) if ok else None
+        else:
+            ok, got = subject(detail, MIMAS.intersect_regions, files)
+        if ok:
+            o.count('intersect_orders_judged')
+            if len(order) >= 3:
+                o.count('intersect_three_or_more_operands')
+            if order[0] in ('P', 'S'):
+                o.count('intersect_first_operand_whole_coarse_pixels')
+            judge(got, want, 'intersect_wrapper_vs_model', detail)
+    # ---------------- reg2mim, several files one after the other in this process
+    specs = []
+    for k in range(3):
+        n = int(rng.integers(1, 3))
+        circ = [(round(float(np.degrees(anchor[0]) + rng.normal(0, 8)) % 360, 6),
+                 round(float(np.clip(np.degrees(anchor[1]) + rng.normal(0, 8), -80, 80)), 6),
+                 round(float(rng.uniform(1.0, 5.0) * np.degrees(res) * 3600), 3)) for _ in range(n)]
+        path = os.path.join(workdir, 'f%d.reg' % k)
+        with open(path, 'w') as f:
+            f.write('# Region file format: DS9\nfk5\n')
+            for a, d, r in circ:
+                f.write('circle(%r,%r,%r")\n' % (a, d, r))
+        want = set()
+        for a, d, r in circ:
+            c = np.radians(np.array([Angle(repr(a), unit=u.degree).degree, Angle(repr(d), unit=u.degree).degree,
+                                     Angle(repr(r), unit=u.arcsecond).degree]))
+            want |= set(int(x) for x in hp.query_disc(2 ** M, vec_of([c[0]], [c[1]])[0], c[2], inclusive=True, nest=True))
+        specs.append((path, os.path.join(workdir, 'f%d.mim' % k), want, circ))
+    via_cli = case['seed'][-1] % 2 == 1
+    if via_cli:
+        args = []
+        for path, out, want, circ in specs:
+            args += ['--reg2mim', path, out]
+        ok, _ = subject({'wrapper': 'MIMAS --reg2mim x3'}, cli_main, ['-depth', str(M)] + args)
+    for k, (path, out, want, circ) in enumerate(specs):
+        detail = {'wrapper': 'MIMAS --reg2mim' if via_cli else 'reg2mim', 'call_number_in_process': k + 1,
+                  'circles_deg_arcsec': circ, 'depth': M}
+        ok = True
+        if not via_cli:
+            with muted():
+                ok, _ = subject(detail, MIMAS.reg2mim, path, out, M)
+        if ok and os.path.exists(out):
+            o.count('reg2mim_results_judged')
+            if k > 0:
+                o.count('reg2mim_later_calls_judged')
+            judge(Region.load(out), want, 'reg2mim_vs_model', detail)
+    # ---------------- combine_regions, fresh containers filled by append
+    for k in range(3):
+        cont = MIMAS.Dummy(maxdepth=M)
+        ra, dec, rad = _gen_circle(rng, anchor, M)
+        cd = [float(np.degrees(ra[0])), float(np.degrees(dec[0])), float(np.degrees(rad[0]))]
+        cont.include_circles.append(cd)
+        a, d, r = np.radians(np.array(cd))
+        want = set(int(x) for x in hp.query_disc(2 ** M, vec_of([a], [d])[0], r, inclusive=True, nest=True))
+        if k == 1:
+            cont.add_region.append([regs['P']])
+            want |= sets['P']
+        if k == 2:
+            cont.rem_region.append([regs['S']])         # nothing to remove from yet: order is add, remove, circles
+        detail = {'wrapper': 'combine_regions', 'call_number_in_process': k + 1, 'circle_deg': cd, 'depth': M}
+        with muted():
+            ok, got = subject(detail, MIMAS.combine_regions, cont)
+        if ok:
+            o.count('combine_fresh_container_judged')
+            judge(got, want, 'combine_wrapper_vs_model', detail)
+    o.count('wrapper_cases')
+    o.n_nontrivial += 1
+    o.sample = {'depth': M, 'coarse_level': lo, 'sizes': dict((n, len(x)) for n, x in sets.items()),
+                'P_stored': dict((d, len(x)) for d, x in P.pixeldict.items() if len(x))}
+
+
 # =============================================================================================== entry points
 def cases(seed, tier):
     out = []
@@ -1349,6 +1506,8 @@ def cases(seed, tier):
     for k in range(nrand):
         out.append({'kind': 'random', 'depth': 2 + k % 9, 'length': 12, 'seed': [seed, 'rand', k],
                     'whole_max': 6 if tier == 'quick' else 7})
+    for k in range(40 if tier == 'quick' else 400):
+        out.append({'kind': 'wrappers', 'depth': 2 + k % 8, 'seed': [seed if k >= 8 else 0, 'wrap', k]})
     ncomb = 48 if tier == 'quick' else 600
     for k in range(ncomb):
         out.append({'kind': 'combine', 'depth': 2 + k % 8, 'seed': [seed, 'comb', k]})
@@ -1371,6 +1530,8 @@ def run(case):
             run_random(case, o, workdir)
         elif kind == 'combine':
             run_combine(case, o, workdir)
+        elif kind == 'wrappers':
+            run_wrappers(case, o, workdir)
         else:
             raise RuntimeError('harness: unknown case kind')
         return o.result()
